@@ -195,6 +195,11 @@ def run(ctx):
             and f"{xa} = self._quarter_times" in src and f"{ya} = self._quarter_durations" in src
     ctx.check(ok, "QDMAP", "previous-value interpolation clamped at both ends", func=qd, construct="quarter-duration-map",
               msg="the quarter-duration map must return the divisions of the latest change at or before t (first value before it, last after)")
+    # the quarter table itself (shared with C01): writes refresh the cache, indices stay in range, propagation slice
+    from ..rules import timeline as TL
+    TL.rule_F2b(ctx)
+    TL.rule_F2c_F2d(ctx)
+    TL.rule_F2h(ctx)
     fs = [ti, qd] + [prog.func(f"{P}.{m}") for m in ("beat_map", "inv_beat_map", "quarter_map", "inv_quarter_map", "use_musical_beat", "use_notated_beat", "set_musical_beat_per_ts")]
     G.rule_F7a(ctx, fs)
     G.rule_F8a(ctx, [f.qname for f in fs] + ["partitura.utils.generic:interp1d"], "time maps")
